@@ -139,9 +139,10 @@ Lemma step_locks s o : match o with Lock1 _ | Unlock1 _ | Restart => False | _ =
 Proof.
   destruct o; intros H; try destruct H; cbn [step]; try reflexivity;
     try (unfold outcome; match goal with |- context [match ?m with _ => _ end] => destruct m as [[? ?]| |] end; reflexivity).
+  - destruct (revisable1 (height s) (t1 (dbs s)) id) as [[]| |]; reflexivity.
   - destruct (alookup u (upds s)); [|reflexivity]. destruct (upd_apply (u_roots u0) a); reflexivity.
   - destruct (alookup u (upds s)); [|reflexivity]. unfold outcome.
-    destruct (m_commit1 s u0 nrev nfsize nmroot fault) as [[? ?]| |]; reflexivity.
+    destruct (g_commit1 s u0 nrev nfsize nmroot fault) as [[? ?]| |]; reflexivity.
   - destruct (mem id (locks s)); [reflexivity|]. destruct (alookup id (t2 (dbs s))); reflexivity.
 Qed.
 
@@ -287,7 +288,7 @@ Proof.
   destruct o; cbn [touchesb]; try discriminate; intros _; cbn [step];
     try (unfold outcome; match goal with |- context [match ?m with _ => _ end] => destruct m as [[? ?]| |] end; eexists; reflexivity).
   - destruct (alookup u (upds s)); [|eexists; reflexivity]. unfold outcome.
-    destruct (m_commit1 s u0 nrev nfsize nmroot fault) as [[? ?]| |]; eexists; reflexivity.
+    destruct (g_commit1 s u0 nrev nfsize nmroot fault) as [[? ?]| |]; eexists; reflexivity.
   - eexists; reflexivity.
 Qed.
 
